@@ -31,6 +31,9 @@ def run(tier, seed):
     r = vlib.rng_for(seed, PID)
     n = 60 if tier == "quick" else 700
     cases, obs_l, viol, diffs, nontriv, hits, samples = [], [], [], [], set(), {}, []
+    import c09
+    shim_ok = c09.build_shim()[0]
+    injected_runs = injected_hit = 0
     with vlib.Scratch() as sc:
         for i in range(n):
             sspec, dspec = ew.gen_world(r, with_big=(i % 3 == 0))
@@ -50,7 +53,45 @@ def run(tier, seed):
                 dflag = fl.get("delete", 0) if r.random() < 0.5 else 1 - fl.get("delete", 0)
                 vlib.run_sharded([os.path.join(vlib.BIN, "h_cache")], ["RS %s %d -" % ((A + "/dst").encode().hex(), dflag)], shards=1)
             ids = ew.Ids()
-            case, obs, raw = ew.run_once(sc, A + "/src", A + "/dst", fl, ids)
+            inject = None
+            if i % 6 == 3 and shim_ok and not fl.get("dry"):
+                # an injected per-file failure: the k-th mutating libc call below the world fails with EIO / ENOSPC
+                inject = {"LD_PRELOAD": c09.SHIM, "SY_CRASH_ROOT": A, "SY_CRASH_LOG": base + "/shim.log",
+                          "SY_FAIL_AT": str(r.randrange(1, 12)), "SY_FAIL_ERRNO": str(r.choice([5, 28]))}
+            case, obs, raw = ew.run_once(sc, A + "/src", A + "/dst", fl, ids, extra_env=inject)
+            if inject:
+                injected_runs += 1
+                hitline = None
+                if os.path.exists(base + "/shim.log"):
+                    ls = [l.rstrip("\n").split("\t") for l in open(base + "/shim.log", errors="replace") if l[:1].isdigit()]
+                    k = int(inject["SY_FAIL_AT"])
+                    hitline = ls[k - 1] if len(ls) >= k else None
+                wi = []
+                if raw["badlines"]:
+                    wi.append("%d stdout line(s) are not JSON objects: %r" % (raw["badlines"], raw["stdout_tail"][-160:]))
+                kvi = dict(x.split("=", 1) for x in obs.split(" "))
+                if hitline is not None:
+                    injected_hit += 1
+                    if raw["rc"] != 0 and int(kvi["nerr"]) == 0:
+                        wi.append("the run failed (exit %s) but the stream has no error object" % raw["rc"])
+                sm = raw["summary"]
+                if sm is not None:
+                    cnt = {k_: sum(1 for e in raw["events"] if e.split(":")[0] == k_) for k_ in ("create", "update", "skip", "delete")}
+                    if (sm["files_created"], sm["files_updated"], sm["files_skipped"], sm["files_deleted"]) != (cnt["create"], cnt["update"], cnt["skip"], cnt["delete"]):
+                        wi.append("summary counters differ from the event counts under an injected failure")
+                # events that are there must still be true: a created path exists, a deleted path is gone
+                inv_ = {v: k_ for k_, v in ids.names.items()}
+                for e in raw["events"]:
+                    t_, pid_ = e.split(":")
+                    rel_ = "/".join(inv_[int(c_)] for c_ in pid_.split("."))
+                    if t_ == "create" and rel_ not in raw["after"]:
+                        wi.append("create event for %s, which does not exist after the run (injected failure)" % rel_)
+                    if t_ == "delete" and rel_ in raw["after"]:
+                        wi.append("delete event for %s, which still exists after the run (injected failure)" % rel_)
+                for msg in wi:
+                    viol.append({"world": i, "flags": fl, "why": msg, "injected": {k_: v for k_, v in inject.items() if k_.startswith("SY_FAIL")}, "failed_call": hitline, "impl": obs})
+                shutil.rmtree(base, ignore_errors=True)
+                continue
             cases.append(case); obs_l.append(obs)
             w = []
             # (1) every stdout line is a JSON object
@@ -145,8 +186,9 @@ def run(tier, seed):
     res.cov["distinct_nontrivial"] = len(nontriv)
     res.cov["model_impl_disagreements"] = len(diffs)
     res.cov["rule"] = ("C01/C06 worlds, one third with natural faults (type conflicts), all flag sets incl. --delete and --dry-run, run with --json (every stdout line parsed; events, error objects, summary) "
-                       "and, on a twin, in human mode (counters parsed); events and counters compared with the before/after snapshot diff and with Engine.run; non-trivial = at least one create/update/delete event")
+                       "and, on a twin, in human mode (counters parsed); every sixth world with an injected per-file failure (LD_PRELOAD shim: the k-th mutating call fails with EIO/ENOSPC): all lines JSON, error object present, counters = event counts, create/delete events true; events and counters compared with the before/after snapshot diff and with Engine.run; non-trivial = at least one create/update/delete event")
     res.cov["samples"] = samples
+    res.cov["injected_failure_runs"] = {"runs": injected_runs, "fault_reached": injected_hit}
     res.cov["trusted_base"] = TRUSTED_COMMON + ["serde_json emits one object per line", "symlink entries are outside Engine.v (their event accounting is known finding C19-KF1, exercised by C17's worlds only)"]
     res.cov["known_finding_hits"] = {k: len(v) for k, v in hits.items()}
     for cls, f in known.items():
